@@ -66,6 +66,7 @@ type Run struct {
 	replayCase  string
 	exhaustive  *bool
 	finished    bool
+	shardK, shardN int
 }
 
 var sigClean = regexp.MustCompile(`[^A-Za-z0-9_.-]+`)
@@ -91,6 +92,15 @@ func Start(prop, level string) *Run {
 		extra:      map[string]any{},
 		knownSeen:  map[string]int{},
 		known:      map[string]Finding{},
+	}
+	// sharding (./check splits the thorough tier of the free-running checks over several processes:
+	// each process runs the cases whose id hashes to its shard and ./check merges the evidence)
+	if sh := os.Getenv("VERIF_SHARD"); sh != "" {
+		var k, n int
+		if _, err := fmt.Sscanf(sh, "%d/%d", &k, &n); err == nil && n > 1 && k >= 0 && k < n {
+			r.shardK, r.shardN = k, n
+			r.extra["shard"] = sh
+		}
 	}
 	// summary of the race-detector pass that ./check ran before this one (thorough tier)
 	if rp := os.Getenv("VERIF_RACE_PASS"); rp != "" {
@@ -147,6 +157,14 @@ func (r *Run) Replaying() bool { return r.replayCase != "" }
 // a replay file restricts the run to a single case id; a case id may be a prefix family "a/b").
 func (r *Run) Only(caseID string) bool {
 	if r.replayCase == "" {
+		if r.shardN > 1 {
+			h := uint32(2166136261)
+			for i := 0; i < len(caseID); i++ {
+				h ^= uint32(caseID[i])
+				h *= 16777619
+			}
+			return int(h%uint32(r.shardN)) == r.shardK
+		}
 		return true
 	}
 	return caseID == r.replayCase || strings.HasPrefix(r.replayCase, caseID+"/") ||
@@ -383,7 +401,12 @@ func (r *Run) Finish(minDistinct int, required ...string) int {
 	}
 	r.finished = true
 	distinct := len(r.bySig)
-	if r.replayCase == "" {
+	if r.shardN > 1 {
+		// the coverage promises are checked by ./check on the merged evidence of all shards
+		r.extra["_min_distinct"] = minDistinct
+		r.extra["_required"] = required
+	}
+	if r.replayCase == "" && r.shardN <= 1 {
 		if distinct < minDistinct {
 			r.inconcl = append(r.inconcl, fmt.Sprintf("only %d distinct non-trivial cases observed, tier promises >= %d", distinct, minDistinct))
 		}
